@@ -222,10 +222,28 @@ def projection_case(ctx, rng, given=None):
         nd = rng.randint(1, 3)
         labels = []
         long_axis = rng.randrange(nd) if rng.random() < 0.04 else None
+        patterned = rng.random() < 0.12
         for k_ in range(nd):
             n = rng.randint(1, 5) if k_ != long_axis else rng.randint(97, 260)
             pool = rng.sample(gen.POOL[sym], rng.randint(1, min(3, len(gen.POOL[sym]))))
+            if patterned and k_ != long_axis:
+                # 6-14 positions labelled by a repeated motif (or sorted runs) with zero, one or
+                # two point mutations / one swap: every charge sits at regularly or ALMOST
+                # regularly spaced positions (what a strided read would assume)
+                n = rng.randint(6, 14) if nd <= 2 else rng.randint(5, 9)
+                motif = [rng.choice(pool) for _ in range(rng.randint(2, 4))]
+                lab = [motif[i % len(motif)] for i in range(n)] if rng.random() < 0.75 else sorted((rng.choice(pool) for _ in range(n)), key=repr)
+                allc = gen.POOL[sym]
+                for _ in range(rng.choice([0, 1, 1, 2])):
+                    lab[rng.randrange(n)] = rng.choice(allc)
+                if rng.random() < 0.25:
+                    i_, j_ = rng.randrange(n), rng.randrange(n)
+                    lab[i_], lab[j_] = lab[j_], lab[i_]
+                labels.append(lab)
+                continue
             labels.append([rng.choice(pool) for _ in range(n)])
+        if patterned:
+            ctx.count("feature", "patterned-labels")
         if long_axis is not None:
             ctx.count("feature", "axis-longer-than-96")
         duals = [rng.random() < 0.5 for _ in range(nd)]
